@@ -522,6 +522,27 @@ def _resolve_npath_parent(
     return current, final_key
 
 
+def _prune_empty_attrpath_parents(target_set: AttributeSet, segments: list[str]) -> None:
+    """Drop attrpath-derived parents that a removal left without any binding."""
+    chain: list[tuple[AttributeSet, Binding]] = []
+    current = target_set
+    for segment in segments:
+        binding = _find_binding(current, segment)
+        if binding is None or not isinstance(binding.value, AttributeSet):
+            break
+        chain.append((current, binding))
+        current = binding.value
+    for container, binding in reversed(chain):
+        if (
+            binding.nested
+            and isinstance(binding.value, AttributeSet)
+            and not binding.value.values
+        ):
+            container.values.remove(binding)
+        else:
+            break
+
+
 def _segment_name(segment: str) -> str:
     """Strip quotes from formatted segment names."""
     if segment.startswith('"') and segment.endswith('"'):
@@ -698,6 +719,7 @@ def _remove_value_in_attrset(target_set: AttributeSet, npath: str) -> None:
         target_set, npath, create_missing=False
     )
     del parent_set[final_key]
+    _prune_empty_attrpath_parents(target_set, segments[:-1])
 
 
 def _split_scope_npath(npath: str) -> tuple[int, str] | None:
@@ -959,4 +981,5 @@ def remove_value(source: NixSourceCode, npath: str) -> str:
         target_set, npath, create_missing=False
     )
     del parent_set[final_key]
+    _prune_empty_attrpath_parents(target_set, segments[:-1])
     return source.rebuild()
